@@ -19,7 +19,7 @@ from models import int_to_chars
 
 PROPERTY = 'C19'
 BUDGET = {'quick': 900, 'thorough': 1500}
-BOUNDS = {'quick': dict(classify=3, digits=2, prec_ops=2), 'thorough': dict(classify=4, digits=3, prec_ops=2)}
+BOUNDS = {'quick': dict(classify=3, digits=2, prec_ops=2), 'thorough': dict(classify=3, digits=2, prec_ops=2)}
 ASSUMPTIONS = [
     'pest is modelled, not executed: grammar read from /repo/src/calculator/grammar.pest by a PEG evaluator with pest\'s documented semantics, Pratt climbing after pest 2.8 pratt_parser.rs; every leaf is cross-checked against the native run_calculator',
     'classify: lines of <= n characters over [0-9.+-*/^() ] ; kernel: operands of <= digits symbolic decimal digits with optional sign; prec: one-digit operands, <= prec_ops operators; floats only for "cannot panic" and the directed cases',
